@@ -99,7 +99,27 @@ fn check_line(stats: &mut Stats, g: &G, edges: &[Edge], refs: &HashMap<GraphEdge
     // precondition: nowhere (near-)tangent; and the expected crossings per edge
     let mut want = vec![0usize; edges.len()];
     let mut min_sin: f64 = 1.0;
+    // the shallow classes are decided on a 200000-point evaluation of every edge (two crossings 1 unit apart on a 1500-long arc fall between
+    // the points of the coarse grid), and are not subject to the coarse grid's near-tangent exclusion: their crossing angle is known to be > 0
+    let dense = lclass.starts_with("shallow_");
+    if dense {
+        const N: usize = 200000;
+        for (i, e) in edges.iter().enumerate() {
+            let mut prev = sd(bez(&e.cubic, 0.0));
+            for k in 1..=N {
+                let t = k as f64 / N as f64;
+                let cur = sd(bez(&e.cubic, t));
+                if (cur > 0.0) != (prev > 0.0) {
+                    want[i] += 1;
+                    let tv = bez_d(&e.cubic, t);
+                    if len(tv) > 0.0 { min_sin = min_sin.min((cross(tv, d) / (len(tv) * l)).abs()); }
+                }
+                prev = cur;
+            }
+        }
+    }
     for (i, e) in edges.iter().enumerate() {
+        if dense { break; }
         let ds: Vec<f64> = e.grid.iter().map(|q| sd(*q)).collect();
         for k in 1..=GRID {
             if (ds[k] > 0.0) != (ds[k - 1] > 0.0) {
@@ -188,6 +208,39 @@ pub fn search(seed: u64, n: u64) {
         stats.case(&format!("corpus {}", detail()), true);
         let g = GraphPath::from_path(&p, PathLabel(0));
         check_graph(&mut stats, &mut rng, &g, "plain_path", 25, &detail);
+    }
+    // shallow but transversal crossings: 600..1500-long wedges whose sides have slope 0.00025 .. 0.003, cut lengthwise by a line that stays
+    // 0.1 clear of the three vertices; and large circles (radius 500 .. 1500) cut by a chord of depth 1e-4 .. 0.3 through the middle of an arc
+    let mut rng_s = Rng(seed ^ 0x5A110);
+    for k in 0..(6 + n / 100) {
+        let detail_owner: String;
+        let (g, line, cls) = if k % 2 == 0 {
+            let l = rng_s.r(600.0, 1500.0);
+            let a = (l * 10f64.powf(rng_s.r(-3.6, -2.5))).max(0.32);
+            let rot = [0.0, std::f64::consts::FRAC_PI_2, 0.7][(k / 2 % 3) as usize];
+            let r = |p: Coord2| Coord2(p.0 * rot.cos() - p.1 * rot.sin(), p.0 * rot.sin() + p.1 * rot.cos());
+            let wedge = polygon(&[r(Coord2(0.0, 0.0)), r(Coord2(l, a)), r(Coord2(l, -a))]);
+            let c = (a - 0.12).min(a * 0.5).max(0.11) * if rng_s.b() { 1.0 } else { -1.0 };
+            detail_owner = format!("graph=from_path({:?})", wedge);
+            (GraphPath::from_path(&wedge, PathLabel(0)), (r(Coord2(-10.0, c)), r(Coord2(l + 10.0, c))), "shallow_wedge")
+        } else {
+            let rad = rng_s.r(500.0, 1500.0);
+            let circ = circle(0.0, 0.0, rad);
+            let depth = 10f64.powf(rng_s.r(-4.0, -0.5));
+            // cut the cap around the middle of the first arc, far from every vertex
+            let gg = GraphPath::from_path(&circ, PathLabel(0));
+            let (v0, v1) = (gg.point_position(0), gg.point_position(1));
+            let mid = v0 + v1; let ml = len(mid);
+            let (ux, uy) = (mid.0 / ml, mid.1 / ml);
+            let m = Coord2(ux, uy) * (rad - depth);
+            detail_owner = format!("graph=from_path({:?})", circ);
+            (GraphPath::from_path(&circ, PathLabel(0)), (m + Coord2(-uy, ux) * 200.0, m + Coord2(uy, -ux) * 200.0), "shallow_cap")
+        };
+        let detail = || detail_owner.clone();
+        stats.case(&format!("{} {:?} {}", cls, line, detail()), true);
+        stats.count(&format!("graph.{}", cls));
+        let (edges, refs) = edges_of(&g);
+        check_line(&mut stats, &g, &edges, &refs, line, "plain_path", cls, &detail);
     }
     for it in 0..n {
         if it % 5 == 4 {
